@@ -410,6 +410,9 @@ pub fn module(m: &Value, st: &mut Style) -> String {
         }
     }
     for i in arr(&m["impls"]) {
+        // attributes written on the block itself (raw text)
+        let battrs: Vec<String> = arr(&i["battrs"]).iter().map(|a| s(a).to_string()).collect();
+        attr_list(&mut out, &battrs, st);
         out.push_str(&format!("impl {} {{\n", s(&i["name"])));
         let fs = arr(&i["funcs"]);
         for (k, f) in fs.iter().enumerate() {
